@@ -25,6 +25,8 @@ pub fn run(ctx: &Ctx, rep: &mut Report) {
         "C16" => super::real_c16::case(ctx, &env, &dir, case, seed, rep),
         "C07" => super::real_misc::c07_prefix_case(ctx, &env, &dir, case, seed, rep),
         "C12" => super::real_misc::c12_process_case(ctx, &env, &dir, case, seed, rep),
+        "C20" => super::real_misc::c20_pty_case(ctx, &env, &dir, case, seed, rep),
+        "C06" if case % 4 == 1 => super::real_misc::c06_deep_chain_case(ctx, &env, &dir, case, seed, rep),
         "C18" if case % 2 == 0 => super::real_misc::c18_args_case(ctx, &env, &dir, case, seed, rep),
         _ => general_case(ctx, &env, &dir, case, seed, rep),
     });
